@@ -225,6 +225,8 @@ def run_history(ctx, hist, check_state=None):
         ctx.outcome('ok')
     p.encode.support_deprecated_rabbitmq(False)
     decimal.setcontext(decimal.Context())
+    c16events.env_reset()
+    logging.disable(logging.CRITICAL)
     return digest, legacy, ok
 
 
